@@ -43,6 +43,19 @@ def _const_state(body, op, flag):
     if tr.origin and tr.origin[0] == "const":
         c = tr.origin[1]
         return c.get("variant") or c.get("ref_variant")
+    if tr.origin and tr.origin[0] == "call" and not tr.origin[2]["args"] and all(s[0] in ("use", "ref", "deref") for s in tr.steps):
+        # `Slot::default()` / a nullary same-crate constructor: the variant its body returns
+        f = fn_of(tr.origin[2]) or {}
+        cb = body.crate.by_id.get(f.get("resolved") or f.get("def"))
+        if cb is not None and cb.nargs == 0:
+            vs = set()
+            for _, _, k_, p_ in cb.whole_defs(0):
+                if k_ == "assign" and p_["rv"]["k"] == "aggregate" and p_["rv"].get("adt") == flag.enum:
+                    vs.add(p_["rv"].get("variant"))
+                else:
+                    vs.add(None)
+            if len(vs) == 1 and None not in vs:
+                return vs.pop()
     return None
 
 
@@ -104,6 +117,124 @@ def _reads_field(body, op, flag, depth=0):
         if all(e["k"] == "deref" for e in rv["p"]["pr"]):
             return _reads_field(body, {"k": "copy", "p": {"l": rv["p"]["l"], "pr": []}}, flag, depth + 1)
     return False
+
+
+_SUMM = {}
+
+
+def method_summary(crate, m, flag):
+    """For a same-crate method of the flag's own type that takes `&mut self` and returns bool: {CLEAR: (returned
+    bool, final role), SET: (..)} obtained by running its (loop-free) body on both states; None when the body does
+    anything this little interpreter does not understand."""
+    key = (id(crate), m.id, flag.adt, flag.field)
+    if key in _SUMM:
+        return _SUMM[key]
+    _SUMM[key] = None
+    if flag.kind != "enum" or m.nargs != 1 or m.local_ty(0) != "bool" or not m.local_ty(1).startswith("&mut " + flag.enum):
+        return None
+    e = crate.adts[flag.enum]
+    name_of = {v["idx"]: v["name"] for v in e["variants"]}
+    # Default of the enum (what mem::take leaves behind)
+    default = None
+    for b in crate.bodies:
+        if b.raw.get("impl_trait") == "std::default::Default" and b.raw.get("impl_self_adt") == flag.enum and b.name == "default":
+            for _, _, k_, p_ in b.whole_defs(0):
+                if k_ == "assign" and p_["rv"]["k"] == "aggregate":
+                    default = p_["rv"].get("variant")
+    out = {}
+    for init in (flag.clear, flag.set):
+        env = {"*": init}
+        bi, steps = 0, 0
+        ret = None
+        while steps < 64:
+            steps += 1
+            blk = m.blocks[bi]
+            bad = False
+            for s_ in blk["stmts"]:
+                if s_["k"] != "assign":
+                    continue
+                p_, rv = s_["p"], s_["rv"]
+                to_pointee = p_["l"] == 1 and [x["k"] for x in p_["pr"]] == ["deref"]
+                val = None
+                if rv["k"] == "aggregate" and rv.get("adt") == flag.enum:
+                    val = rv.get("variant")
+                elif rv["k"] == "use" and rv["op"].get("k") == "const":
+                    val = rv["op"].get("v") if isinstance(rv["op"].get("v"), bool) else (rv["op"].get("variant") or "?")
+                elif rv["k"] == "use" and is_place(rv["op"]):
+                    src = rv["op"]["p"]
+                    val = env.get("*") if (src["l"] == 1 and [x["k"] for x in src["pr"]] == ["deref"]) else (env.get(src["l"]) if not src["pr"] else "?")
+                elif rv["k"] == "discr":
+                    src = rv["p"]
+                    v0 = env.get("*") if (src["l"] == 1 and [x["k"] for x in src["pr"]] == ["deref"]) else (env.get(src["l"]) if not src["pr"] else None)
+                    idx = [i for i, nm in name_of.items() if nm == v0]
+                    val = ("discr", idx[0]) if idx else "?"
+                elif rv["k"] == "ref":
+                    src = rv["p"]
+                    if (src["l"] == 1 and [x["k"] for x in src["pr"]] == ["deref"]) or (not src["pr"] and env.get(src["l"]) == "&*"):
+                        val = "&*"
+                    else:
+                        val = "?"
+                else:
+                    val = "?"
+                if to_pointee:
+                    if val in name_of.values():
+                        env["*"] = val
+                    else:
+                        bad = True
+                elif not p_["pr"]:
+                    env[p_["l"]] = val
+                else:
+                    bad = True
+            if bad:
+                return None
+            t = blk["term"]
+            if t["k"] == "return":
+                ret = env.get(0)
+                break
+            if t["k"] == "goto":
+                bi = t["target"]
+                continue
+            if t["k"] == "switch" and is_place(t["discr"]) and not t["discr"]["p"]["pr"]:
+                dv = env.get(t["discr"]["p"]["l"])
+                if isinstance(dv, tuple) and dv[0] == "discr":
+                    tg = [x for v_, x in t["targets"] if v_ == dv[1]]
+                    bi = tg[0] if tg else t["otherwise"]
+                    continue
+                if isinstance(dv, bool):
+                    tg = [x for v_, x in t["targets"] if v_ == int(dv)]
+                    bi = tg[0] if tg else t["otherwise"]
+                    continue
+                return None
+            if t["k"] == "call" and not t["dest"]["pr"]:
+                f = fn_of(t) or {}
+                a0 = t["args"][0] if t["args"] else None
+                on_pointee = a0 is not None and is_place(a0) and not a0["p"]["pr"] and env.get(a0["p"]["l"]) == "&*"
+                if f.get("def") == "std::mem::take" and on_pointee and default is not None:
+                    env[t["dest"]["l"]] = env["*"]
+                    env["*"] = default
+                elif f.get("def") == "std::mem::replace" and on_pointee and len(t["args"]) == 2:
+                    nv = _const_state(m, t["args"][1], flag)
+                    if nv is None:
+                        return None
+                    env[t["dest"]["l"]] = env["*"]
+                    env["*"] = nv
+                else:
+                    return None
+                bi = t["target"]
+                continue
+            if t["k"] == "drop":
+                bi = t.get("target")
+                if bi is None:
+                    return None
+                continue
+            return None
+        if not isinstance(ret, bool):
+            return None
+        out[flag.role(init)] = (ret, flag.role(env["*"]))
+    if set(out) != {CLEAR, SET} or out[CLEAR][0] == out[SET][0]:
+        return None
+    _SUMM[key] = out
+    return out
 
 
 def tests(sup, flag):
@@ -176,6 +307,15 @@ def tests(sup, flag):
             continue
         f = fn_of(origin_call) or {}
         d = f.get("def", "")
+        mcal = b.crate.by_id.get(f.get("resolved") or d) if f.get("local") else None
+        summ = method_summary(b.crate, mcal, flag) if (mcal is not None and len(origin_call["args"]) == 1 and _reads_field(b, origin_call["args"][0], flag)) else None
+        if summ is not None:
+            # `if self.slot.claim() { .. }`: the method reports the previous state and leaves a state behind
+            clear_true = summ[CLEAR][0] is True
+            clear_e, set_e = (true_e, false_e) if clear_true != neg else (false_e, true_e)
+            finals = {summ[CLEAR][1], summ[SET][1]}
+            out.append({"node": n, "edges": {CLEAR: clear_e, SET: set_e}, "how": "replace", "wrote": SET if finals == {SET} else (CLEAR if finals == {CLEAR} else None)})
+            continue
         if d == "std::mem::replace" and len(origin_call["args"]) == 2 and _reads_field(b, origin_call["args"][0], flag) and flag.kind == "bool":
             wrote = flag.role(_const_state(b, origin_call["args"][1], flag))
             edges = {SET: false_e if neg else true_e, CLEAR: true_e if neg else false_e}
@@ -251,6 +391,12 @@ def writes(crate, flag):
                 if f.get("def") in ("std::mem::replace", "std::mem::take", "std::mem::swap") and t["args"] and _reads_field(b, t["args"][0], flag):
                     role = flag.role(_const_state(b, t["args"][1], flag)) if f["def"] == "std::mem::replace" and len(t["args"]) == 2 else None
                     out.append((b, bi, role, f["def"].rsplit("::", 1)[-1]))
+                elif f.get("local") and len(t["args"]) == 1 and _reads_field(b, t["args"][0], flag):
+                    mcal = crate.by_id.get(f.get("resolved") or f.get("def"))
+                    summ = method_summary(crate, mcal, flag) if mcal is not None else None
+                    if summ is not None:
+                        finals = {summ[CLEAR][1], summ[SET][1]}
+                        out.append((b, bi, SET if finals == {SET} else None, "method " + mcal.name))
     return out
 
 
@@ -276,6 +422,9 @@ def mut_borrow_escapes(crate, flag):
                     if isinstance(how, tuple) and how[0] == "callarg":
                         ct = b.blocks[ub]["term"]
                         ok = (fn_of(ct) or {}).get("def") == "std::mem::replace" and is_place(ct["args"][0]) and ct["args"][0]["p"]["l"] == cur and _const_state(b, ct["args"][1], flag) is not None
+                        if not ok and (fn_of(ct) or {}).get("local") and len(ct["args"]) == 1:
+                            mcal = crate.by_id.get((fn_of(ct) or {}).get("resolved") or (fn_of(ct) or {}).get("def"))
+                            ok = mcal is not None and method_summary(crate, mcal, flag) is not None
                         break
                     if how == "stmt":
                         s2 = b.blocks[ub]["stmts"][ui]
